@@ -385,7 +385,13 @@ func check(c *caseID, t *tally) {
 		}
 		return
 	}
-	// version drift between the two stdlib parsers: not judged
+	// Version drift between the two stdlib parsers: the whole result is not judged.  One thing still is: the fork's
+	// base lies between the two releases, so every error it reports must be reported (same position, same message) by
+	// at least one of them, and every error both of them report must be reported by the fork.
+	if msg := sandwich(f0.err, a.err, b.err); msg != "" {
+		r.Violation(c.key("error-outside-both-refs"), detail(&a, "go1.23.5 and go1.25.9 disagree on this input, but "+msg))
+		return
+	}
 	switch {
 	case sameResult(&f0, &b):
 		t.undecided123++
@@ -395,6 +401,43 @@ func check(c *caseID, t *tally) {
 		t.undecidedNeither++
 		noteNeither(c.key("neither"))
 	}
+}
+
+type errKey struct {
+	pos token.Position
+	msg string
+}
+
+func errSet(e error) map[errKey]bool {
+	m := map[errKey]bool{}
+	if el, ok := e.(scanner.ErrorList); ok {
+		for _, x := range el {
+			m[errKey{x.Pos, x.Msg}] = true
+		}
+	} else if e != nil {
+		m[errKey{msg: e.Error()}] = true
+	}
+	return m
+}
+
+func sandwich(fork, r125, r123 error) string {
+	ef, e5, e3 := errSet(fork), errSet(r125), errSet(r123)
+	var bad []string
+	for k := range ef {
+		if !e5[k] && !e3[k] {
+			bad = append(bad, fmt.Sprintf("fork reports %s: %q which neither reference reports", k.pos, k.msg))
+		}
+	}
+	for k := range e5 {
+		if e3[k] && !ef[k] {
+			bad = append(bad, fmt.Sprintf("both references report %s: %q, the fork does not", k.pos, k.msg))
+		}
+	}
+	if len(bad) == 0 {
+		return ""
+	}
+	sort.Strings(bad)
+	return bad[0]
 }
 
 // the (few) undecided inputs on which the fork matches neither reference are listed in the evidence (smallest keys first)
@@ -475,9 +518,9 @@ var fileModes = []uint{
 	uint(goparser.ImportsOnly),
 	uint(goparser.PackageClauseOnly),
 	uint(goparser.DeclarationErrors),
-	uint(goparser.ParseComments | goparser.DeclarationErrors),                          // gnolang.Machine.ParseFile
+	uint(goparser.ParseComments | goparser.DeclarationErrors),                                 // gnolang.Machine.ParseFile
 	uint(goparser.ParseComments | goparser.DeclarationErrors | goparser.SkipObjectResolution), // gotypecheck
-	uint(goparser.ParseComments | goparser.AllErrors),                                  // gnofmt
+	uint(goparser.ParseComments | goparser.AllErrors),                                         // gnofmt
 }
 var exprModes = []uint{0, uint(goparser.SkipObjectResolution), uint(goparser.ParseComments | goparser.AllErrors)}
 
@@ -735,10 +778,30 @@ func main() {
 		defer pprof.StopCPUProfile()
 		time.AfterFunc(20*time.Second, func() { pprof.StopCPUProfile(); f.Close(); os.Exit(3) })
 	}
-	r.SetBudget(75*time.Second, 25*time.Minute)
+	r.SetBudget(88*time.Second, 25*time.Minute)
 	if r.ReplayIn != "" {
 		replay(r.ReplayIn)
 		return
+	}
+	if sf := os.Getenv("C21_SHOW"); sf != "" { // debugging aid: C21_SHOW=<file> [C21_SHOW_MODE=n] [C21_SHOW_EXPR=1] prints the three results
+		src, err := os.ReadFile(sf)
+		if err != nil {
+			r.HarnessError("%v", err)
+		}
+		var mode uint
+		fmt.Sscan(os.Getenv("C21_SHOW_MODE"), &mode)
+		ep := epFile
+		if os.Getenv("C21_SHOW_EXPR") != "" {
+			ep = epExpr
+		}
+		f0, a, b := runFork(ep, src, mode, false), run125(ep, src, mode), run123(ep, src, mode)
+		fmt.Printf("fork==go1.25:%v fork==go1.23:%v go1.25==go1.23:%v\n", sameResult(&f0, &a), sameResult(&f0, &b), sameResult(&a, &b))
+		fmt.Println("fork vs go1.25:", firstDiff(dump(&f0), dump(&a)))
+		fmt.Println("fork vs go1.23:", firstDiff(dump(&f0), dump(&b)))
+		if os.Getenv("C21_SHOW_DUMP") != "" {
+			fmt.Printf("---- fork\n%s---- go1.25\n%s---- go1.23\n%s", dump(&f0), dump(&a), dump(&b))
+		}
+		os.Exit(0)
 	}
 	repo := os.Getenv("VERIF_REPO")
 	if repo == "" {
@@ -764,7 +827,7 @@ func main() {
 		allModes  bool
 	}
 	fFile, fBody, fExpr := frames[0:1], frames[1:2], frames[2:3]
-	var plans []plan
+	var plans, late []plan
 	upTo := func(name string, alpha []string, fr []frame, k int, all bool) {
 		for n := 0; n <= k; n++ {
 			plans = append(plans, plan{name, alpha, fr, n, all})
@@ -782,33 +845,39 @@ func main() {
 		upTo("decl12", decl12, fFile, 6, false)
 		upTo("stmt12", stmt12, fBody, 6, false)
 		upTo("expr12", expr12, fExpr, 6, false)
-		plans = append(plans, plan{"core", core, frames, 5, false})
-		plans = append(plans, plan{"wide", wide, frames, 4, false})
+		// after the corpus mutations (deepest level last: it is the one a budget cap should hit)
+		late = append(late, plan{"core", core, frames, 5, false})
 	}
 	if os.Getenv("C21_BENCH") != "" {
 		plans = []plan{{"core", core, frames, 3, true}}
+	}
+	if os.Getenv("C21_ONLY") == "corpus" {
+		plans = nil
 	}
 	exhaustive := true
 	var nseq int64
 	enumInfo := []string{}
 	maxDepth := 0
-	for _, pl := range plans {
-		for _, fr := range pl.frames {
-			cnt, ok := enumerate(fr, pl.alphaName, pl.alpha, pl.n, pl.allModes)
-			nseq += cnt
-			if pl.n >= 3 {
-				enumInfo = append(enumInfo, fmt.Sprintf("%s/%s/len=%d/modes=%d: %d sequences complete=%v", pl.alphaName, fr.name, pl.n, len(modesFor(fr, pl.allModes)), cnt, ok))
-			}
-			if ok {
-				r.Distinct(fmt.Sprintf("plan:%s:%s:%d", pl.alphaName, fr.name, pl.n))
-				if pl.n > maxDepth {
-					maxDepth = pl.n
+	runPlans := func(plans []plan) {
+		for _, pl := range plans {
+			for _, fr := range pl.frames {
+				cnt, ok := enumerate(fr, pl.alphaName, pl.alpha, pl.n, pl.allModes)
+				nseq += cnt
+				if pl.n >= 3 {
+					enumInfo = append(enumInfo, fmt.Sprintf("%s/%s/len=%d/modes=%d: %d sequences complete=%v", pl.alphaName, fr.name, pl.n, len(modesFor(fr, pl.allModes)), cnt, ok))
 				}
-			} else {
-				exhaustive = false
+				if ok {
+					r.Distinct(fmt.Sprintf("plan:%s:%s:%d", pl.alphaName, fr.name, pl.n))
+					if pl.n > maxDepth {
+						maxDepth = pl.n
+					}
+				} else {
+					exhaustive = false
+				}
 			}
 		}
 	}
+	runPlans(plans)
 	enumEvals := r.Evals()
 
 	// corpus mutations
@@ -817,23 +886,28 @@ func main() {
 		r.HarnessError("corpus not found under %s (%d files)", repo, len(corpus))
 	}
 	var sel []corpusFile
-	if os.Getenv("C21_BENCH") != "" {
+	if os.Getenv("C21_BENCH") != "" || os.Getenv("C21_ONLY") == "enum" {
 		sel = corpus[:1]
 	} else if r.Quick() {
-		// quick: every 8th file, at most 6 KB; deletions + duplications
+		// quick: every 8th file, at most 2 KB; deletions + duplications
 		for i, cf := range corpus {
-			if i%8 == 0 && len(cf.src) <= 6<<10 {
+			if i%8 == 0 && len(cf.src) <= 2<<10 {
 				sel = append(sel, cf)
 			}
 		}
 	} else {
-		sel = corpus
+		// thorough: every file up to 8 KB; deletions + duplications; substitutions (20 tokens) for files up to 1 KB
+		for _, cf := range corpus {
+			if len(cf.src) <= 8<<10 {
+				sel = append(sel, cf)
+			}
+		}
 	}
 	var nmut, filesDone atomic.Int64
 	r.ParFor(len(sel), func(i int) {
 		var t tally
 		cf := sel[i]
-		doSubst := r.Thorough() && len(cf.src) <= 4<<10
+		doSubst := r.Thorough() && len(cf.src) <= 1<<10
 		n, ok := mutateFile(cf, true, doSubst, &t)
 		nmut.Add(n)
 		if ok {
@@ -845,6 +919,9 @@ func main() {
 	if int(filesDone.Load()) != len(sel) {
 		exhaustive = false
 	}
+	enumEvals -= r.Evals()
+	runPlans(late)
+	enumEvals += r.Evals()
 	r.Sample(map[string]any{"frame": "file", "src": "package p; func ( x ) x [ x any ] ( ) { }", "modes": fileModes})
 	r.Sample(map[string]any{"corpus_files_selected": len(sel), "corpus_files_total": len(corpus), "first": sel[0].rel})
 	for i, s := range enumInfo {
